@@ -31,7 +31,12 @@ theorem respects_replace (S : Schema) (doc doc' : Node) (f t : Nat) (req : Slice
       ((ftoks doc.kids).take f).filter Tok.isContent ++ (sliceToks' sl).filter Tok.isContent
         ++ ((ftoks doc.kids).drop t).filter Tok.isContent ∧
     isSubseq (textUnits (sliceToks' sl)) (textUnits (sliceToks' req)) = true := by
-  sorry
+  simp only [respects, Bool.and_eq_true, decide_eq_true_eq] at hm
+  obtain ⟨⟨⟨⟨⟨⟨hFT, hT⟩, hft⟩, h1⟩, h2⟩, _⟩, hs⟩ := hm
+  obtain ⟨ht, _, _, _⟩ := apply_replace_toks S doc doc' F T sl b h
+  refine ⟨?_, hs⟩
+  rw [ht, List.filter_append, List.filter_append, sliceToks'_eq,
+    content_take_eq _ F f h1, content_drop_eq _ t T h2]
 
 /-- **content preservation, replace-around step** (the fitter's "move inline content" shape: the
     kept gap lies after the requested range) -/
@@ -49,13 +54,27 @@ theorem respects_replaceAround (S : Schema) (doc doc' : Node) (f t : Nat) (req :
       (((ftoks doc.kids).drop G1).take (G2 - G1)).filter Tok.isContent ++ ((ftoks doc.kids).drop T).filter Tok.isContent ∧
     textUnits ((sliceToks' sl).drop ins) = [] ∧
     isSubseq (textUnits ((sliceToks' sl).take ins)) (textUnits (sliceToks' req)) = true := by
-  sorry
+  simp only [respects, Bool.and_eq_true, decide_eq_true_eq] at hm
+  obtain ⟨⟨⟨⟨⟨⟨⟨⟨⟨⟨⟨hFG, hGG⟩, hGT⟩, hT⟩, hft⟩, htG⟩, h1⟩, h2⟩, h3⟩, _⟩, hn⟩, hs⟩ := hm
+  obtain ⟨ht, _, _⟩ := apply_replaceAround_toks S doc doc' F T G1 G2 sl ins b hwf hins ⟨hFG, hGG, hGT⟩ h
+  refine ⟨?_, ?_, ?_, hs⟩
+  · rw [ht]
+    simp only [List.filter_append, sliceToks'_eq]
+    rw [content_take_eq _ F f h1]
+  · have e := congrArg (List.filter Tok.isContent) (drop_split (ftoks doc.kids) G1 G2 hGG)
+    rw [List.filter_append] at e
+    rw [content_drop_eq _ t G1 h2, e, content_drop_eq _ G2 T h3]
+  · simpa [noText] using hn
 
 /-- **deleting a range removes exactly the text inside it and adds none** -/
 theorem respects_delete_text (S : Schema) (doc doc' : Node) (f t : Nat) (F T : Nat) (sl : Slice) (b : Bool)
     (hm : respects (ftoks doc.kids) f t Slice.empty (.replace F T sl b) = true)
     (h : S.apply (.replace F T sl b) doc = .ok doc') :
     textUnits (ftoks doc'.kids) = textUnits ((ftoks doc.kids).take f) ++ textUnits ((ftoks doc.kids).drop t) := by
-  sorry
+  obtain ⟨hc, hs⟩ := respects_replace S doc doc' f t Slice.empty F T sl b hm h
+  rw [sliceToks'_empty] at hs
+  have hnil : textUnits (sliceToks' sl) = [] := isSubseq_nil _ (by simpa [textUnits] using hs)
+  rw [← textUnits_filter, hc, textUnits_append, textUnits_append, textUnits_filter, textUnits_filter,
+    textUnits_filter, hnil, List.append_nil]
 
 end PM.C11
